@@ -44,6 +44,7 @@ type ReSpec struct {
 	KeepOrder bool   `json:"maintain_capture_order,omitempty"`
 	TimeoutNs int64  `json:"timeout_ns,omitempty"` // MatchTimeout set before the Regexp is shared (0: none)
 	Private   int    `json:"private,omitempty"`    // 1+client index if only that client uses it
+	Via       int    `json:"via,omitempty"`        // 1: the Regexp the clients use is obtained by MarshalText + UnmarshalText into a zero value
 }
 
 // InputSpec describes a text as Pre + Unit×Rep + Suf (so that long inputs stay short in a run file and shrink well).
